@@ -1238,4 +1238,182 @@ theorem encInt_spec (ty : IntTy) (v : Int) (h : inRange ty.signed ty.width v = t
     have h' := (inRange_unsigned _ v).mp h
     have := encUnsigned_spec ty.width v.toNat (by rw [Int.toNat_lt h'.1, Int.natCast_pow]; exact h'.2)
     rw [Int.toNat_of_nonneg h'.1] at this; exact this
+
+/-! ### the minimal form is unique -/
+
+theorem minimal_length_le (a b : Bytes) (ha : isMinimalTC a = true) (hb : isMinimalTC b = true)
+    (hv : tcValue a = tcValue b) : b.length ≤ a.length := by
+  apply Decidable.byContradiction; intro hlt
+  match a, ha, b, hb with
+  | x :: s, _, [y], _ => simp at hlt
+  | x :: s, _, y :: z :: t, hb =>
+    have hbig := tcValue_minimal_big y z t hb
+    have hr := tcValue_range_cons x s
+    have hmono : (256 : Int) ^ s.length ≤ (256 : Int) ^ t.length := powI_mono (by simp at hlt; omega)
+    omega
+
+theorem tcValue_inj_of_length (a b : Bytes) (hl : a.length = b.length) (hv : tcValue a = tcValue b) :
+    a = b := by
+  match a, b, hl with
+  | [], [], _ => rfl
+  | x :: s, y :: t, hl =>
+    have h1 := beValue_ltI (x :: s)
+    have h2 := beValue_ltI (y :: t)
+    have h3 := beValue_nonnegI (x :: s)
+    have h4 := beValue_nonnegI (y :: t)
+    have hl' : s.length = t.length := by simpa using hl
+    rw [hl] at h1
+    simp only [List.length_cons] at h1 h2
+    have hbe : (beValue (x :: s) : Int) = (beValue (y :: t) : Int) := by
+      by_cases hx : x.toNat < 128
+      · by_cases hy : y.toNat < 128
+        · rw [tcValue_of_lt x s hx, tcValue_of_lt y t hy] at hv; exact hv
+        · rw [tcValue_of_lt x s hx, tcValue_of_ge y t (by omega)] at hv; omega
+      · by_cases hy : y.toNat < 128
+        · rw [tcValue_of_ge x s (by omega), tcValue_of_lt y t hy, hl'] at hv; omega
+        · rw [tcValue_of_ge x s (by omega), tcValue_of_ge y t (by omega), hl'] at hv; omega
+    exact beValue_inj _ _ hl (Int.ofNat_inj.mp hbe)
+
+/-- **Uniqueness.**  Two minimal two's complement strings with the same value are equal: "minimal and
+    denotes `v`" determines the octets. -/
+theorem minimalTC_unique (a b : Bytes) (ha : isMinimalTC a = true) (hb : isMinimalTC b = true)
+    (hv : tcValue a = tcValue b) : a = b :=
+  tcValue_inj_of_length a b
+    (Nat.le_antisymm (minimal_length_le b a hb ha hv.symm) (minimal_length_le a b ha hb hv)) hv
+
+/-- **Round trip.**  Decoding what the encoder wrote gives the value back, for every type and every
+    value of its range. -/
+theorem roundtrip (ty : IntTy) (v : Int) (h : inRange ty.signed ty.width v = true) (rest : Bytes) :
+    primRun (toInt ty) (encInt ty v) rest = .ok (v, St rest (some 0)) := by
+  obtain ⟨hm, hv⟩ := encInt_spec ty v h
+  rw [decode_eq_spec, decodeInt_of_minimal _ _ _ hm, hv, if_pos h]
+
+/-- conversely, whatever a fixed-width accessor accepts is what the encoder writes for the result:
+    the accepted contents are exactly the encoder's outputs -/
+theorem decode_ok_enc (ty : IntTy) (c rest : Bytes) (v : Int) (g : G0)
+    (h : primRun (toInt ty) c rest = .ok (v, g)) : c = encInt ty v := by
+  obtain ⟨hm, hr, hv, _⟩ := (decode_ok_iff ty c rest v g).mp h
+  rw [← hv] at hr
+  obtain ⟨hm', hv'⟩ := encInt_spec ty v hr
+  exact minimalTC_unique c _ hm hm' (by rw [hv', hv])
+
+/-! ### BOOLEAN and NULL encoders -/
+
+theorem encBool_spec (b : Bool) : encBool b = [if b then 0xFF else 0x00] := by
+  cases b <;> rfl
+
+theorem encNull_spec : encNull = [] := rfl
+
+theorem bool_roundtrip (m : Mode) (b : Bool) (rest : Bytes) :
+    primRun (toBool m) (encBool b) rest = .ok (b, St rest (some 0)) := by
+  rw [bool_eq_spec]
+  cases b <;> cases m <;> rfl
+
+theorem null_roundtrip (rest : Bytes) : primRun toNull encNull rest = .ok ((), St rest (some 0)) := by
+  rw [null_eq_spec]; rfl
+
+/-! ### `encoded_len` agrees with `write_encoded` -/
+
+theorem natI (n : Nat) : ((128 * 256 ^ n : Nat) : Int) = 128 * (256 : Int) ^ n := by
+  rw [Int.natCast_mul, Int.natCast_pow]; rfl
+
+theorem pow2_half (k : Nat) : 128 * 256 ^ k = 2 ^ (8 * k + 7) := by
+  rw [Nat.pow_add, Nat.pow_mul, Nat.mul_comm]
+
+/-- position of the top bit of a number between two consecutive half-octet-range bounds -/
+theorem log2_bounds (x n : Nat) (hx : x ≠ 0) (hhi : x < 128 * 256 ^ n)
+    (hlo : ∀ k, n = k + 1 → 128 * 256 ^ k ≤ x) :
+    8 * n ≤ x.log2 + 1 ∧ x.log2 + 1 ≤ 8 * n + 7 := by
+  rw [pow2_half] at hhi
+  have h1 := (Nat.log2_lt hx).mpr hhi
+  refine ⟨?_, by omega⟩
+  cases n with
+  | zero => omega
+  | succ k =>
+    have h2 := hlo k rfl
+    rw [pow2_half] at h2
+    have : ¬ x.log2 < 8 * k + 7 := fun h => by
+      have := (Nat.log2_lt hx).mp h; omega
+    omega
+
+/-- what minimality says about the length `n+1` of a two's complement string and its value -/
+theorem minimal_bounds (e : Bytes) (hm : isMinimalTC e = true) (n : Nat) (hlen : e.length = n + 1) :
+    (-(128 * (256 : Int) ^ n) ≤ tcValue e ∧ tcValue e < 128 * (256 : Int) ^ n) ∧
+    (∀ k, n = k + 1 → 128 * (256 : Int) ^ k ≤ tcValue e ∨ tcValue e < -(128 * (256 : Int) ^ k)) := by
+  match e, hm, hlen with
+  | [a], _, hlen =>
+    have : n = 0 := by simpa using hlen.symm
+    subst this
+    exact ⟨tcValue_range_cons a [], fun k hk => by omega⟩
+  | a :: b :: t, hm, hlen =>
+    have hn : n = t.length + 1 := by simp at hlen; omega
+    subst hn
+    refine ⟨tcValue_range_cons a (b :: t), fun k hk => ?_⟩
+    have : k = t.length := by omega
+    subst this
+    exact tcValue_minimal_big a b t hm
+
+theorem len_formula (W L n : Nat) (h1 : L + 1 ≤ 8 * W) (h2 : 8 * n ≤ L + 1) (h3 : L + 1 ≤ 8 * n + 7) :
+    (if (8 * W - (L + 1)) % 8 = 0 then W - (8 * W - (L + 1)) / 8 + 1 else W - (8 * W - (L + 1)) / 8) = n + 1 := by
+  split <;> omega
+
+theorem len_formula' (W L n : Nat) (h1 : L + 1 ≤ 8 * W) (h2 : 8 * n ≤ L + 1) (h3 : L + 1 ≤ 8 * n + 7) :
+    (if (8 * W - (L + 1)) % 8 = 0 then W + 1 - (8 * W - (L + 1)) / 8 else W - (8 * W - (L + 1)) / 8) = n + 1 := by
+  split <;> omega
+
+/-- length of a minimal string denoting a positive number, from the position of its top bit -/
+theorem log2_of_minimal_pos (e : Bytes) (hm : isMinimalTC e = true) (x : Nat) (hx : x ≠ 0)
+    (hv : tcValue e = (x : Int)) (n : Nat) (hlen : e.length = n + 1) :
+    8 * n ≤ x.log2 + 1 ∧ x.log2 + 1 ≤ 8 * n + 7 := by
+  obtain ⟨⟨_, hhi⟩, hbig⟩ := minimal_bounds e hm n hlen
+  rw [hv] at hhi
+  apply log2_bounds x n hx
+  · apply Int.ofNat_lt.mp; rw [natI]; exact hhi
+  · intro k hk
+    have := hbig k hk
+    rw [hv] at this
+    have hP := powI_pos k
+    apply Int.ofNat_le.mp; rw [natI]
+    have : (0 : Int) ≤ (x : Int) := Int.natCast_nonneg _
+    omega
+
+/-- … and a negative number `-(x+1)` -/
+theorem log2_of_minimal_neg (e : Bytes) (hm : isMinimalTC e = true) (x : Nat) (hx : x ≠ 0)
+    (hv : tcValue e = -((x : Int) + 1)) (n : Nat) (hlen : e.length = n + 1) :
+    8 * n ≤ x.log2 + 1 ∧ x.log2 + 1 ≤ 8 * n + 7 := by
+  obtain ⟨⟨hlo, _⟩, hbig⟩ := minimal_bounds e hm n hlen
+  rw [hv] at hlo
+  apply log2_bounds x n hx
+  · apply Int.ofNat_lt.mp; rw [natI]; omega
+  · intro k hk
+    have := hbig k hk
+    rw [hv] at this
+    have hP := powI_pos k
+    apply Int.ofNat_le.mp; rw [natI]
+    have : (0 : Int) ≤ (x : Int) := Int.natCast_nonneg _
+    omega
+
+theorem length_of_minimal (e : Bytes) (hm : isMinimalTC e = true) : ∃ n, e.length = n + 1 := by
+  cases e with
+  | nil => simp [isMinimalTC] at hm
+  | cons a t => exact ⟨t.length, rfl⟩
+
+theorem shr3 (x : Nat) : x >>> 3 = x / 8 := Nat.shiftRight_eq_div_pow x 3
+theorem and7 (x : Nat) : x &&& 7 = x % 8 := Nat.and_two_pow_sub_one_eq_mod x 3
+
+theorem encUnsignedLen_eq (w v : Nat) (hv : v < 256 ^ w) :
+    encUnsignedLen w v = (encUnsigned w v).length := by
+  by_cases h0 : v = 0
+  · subst h0; rfl
+  · obtain ⟨hm, hval⟩ := encUnsigned_spec w v hv
+    obtain ⟨n, hn⟩ := length_of_minimal _ hm
+    obtain ⟨h2, h3⟩ := log2_of_minimal_pos _ hm v h0 hval n hn
+    have h1 : v.log2 + 1 ≤ 8 * w := by
+      have : v.log2 < 8 * w := (Nat.log2_lt h0).mpr (by rw [Nat.pow_mul]; exact hv)
+      omega
+    rw [hn]
+    unfold encUnsignedLen leadingZeros
+    have hne : ¬ (v == 0) = true := by simp [h0]
+    simp only [hne, Bool.false_eq_true, if_false, shr3, beq_iff_eq]
+    exact len_formula w v.log2 n h1 h2 h3
 end Bcder.Props.C14
